@@ -4,6 +4,7 @@ import (
 	"fmt"
 	"math/big"
 	"math/rand"
+	"strings"
 	"sync"
 
 	"github.com/consensys/gnark-crypto/ecc/bn254/fr"
@@ -165,7 +166,7 @@ func cloneRound(q ref.QueryRound) ref.QueryRound {
 	return o
 }
 
-var c13Corruptions = []string{"leaf", "eval_own", "eval_other", "sibling_initial", "sibling_step", "beta", "alpha", "reduced_opening", "final_coeff", "index_low_bit", "index_mid_bit", "index_high_bit", "cap", "commit_cap"}
+var c13Corruptions = []string{"leaf", "eval_own_c0", "eval_own_c1", "eval_other_c0", "eval_other_c1", "sibling_initial", "sibling_step", "beta_c0", "beta_c1", "alpha_c0", "alpha_c1", "reduced_opening_c0", "reduced_opening_c1", "final_coeff_c0", "final_coeff_c1", "index_low_bit", "index_mid_bit", "index_high_bit", "cap", "commit_cap"}
 
 func init() {
 	register("C13", func() *fw.Prop {
@@ -398,7 +399,15 @@ func init() {
 						in.finalPoly = append([]ref.E(nil), base.finalPoly...)
 						var one fr.Element
 						one.SetOne()
-						switch corr {
+						co := 0
+						base13 := corr
+						if strings.HasSuffix(corr, "_c1") {
+							co = 1
+						}
+						if strings.HasSuffix(corr, "_c0") || strings.HasSuffix(corr, "_c1") {
+							base13 = corr[:len(corr)-3]
+						}
+						switch base13 {
 						case "leaf":
 							oi := r.Intn(len(in.q.Initial))
 							k := r.Intn(len(in.q.Initial[oi].Leaf))
@@ -406,11 +415,11 @@ func init() {
 						case "eval_own":
 							st := r.Intn(len(in.q.Steps))
 							pos := (idx >> uint(4*st)) & 15
-							in.q.Steps[st].Evals[pos][0] = ref.Add(in.q.Steps[st].Evals[pos][0], 1)
+							in.q.Steps[st].Evals[pos][co] = ref.Add(in.q.Steps[st].Evals[pos][co], 1)
 						case "eval_other":
 							st := r.Intn(len(in.q.Steps))
 							pos := ((idx >> uint(4*st)) + 1 + uint64(r.Intn(15))) & 15
-							in.q.Steps[st].Evals[pos][1] = ref.Add(in.q.Steps[st].Evals[pos][1], 1)
+							in.q.Steps[st].Evals[pos][co] = ref.Add(in.q.Steps[st].Evals[pos][co], 1)
 						case "sibling_initial":
 							oi := r.Intn(len(in.q.Initial))
 							if len(in.q.Initial[oi].Siblings) == 0 {
@@ -427,15 +436,15 @@ func init() {
 							in.q.Steps[st].Siblings[k].Add(&in.q.Steps[st].Siblings[k], &one)
 						case "beta":
 							k := r.Intn(len(in.betas))
-							in.betas[k][0] = ref.Add(in.betas[k][0], 1)
+							in.betas[k][co] = ref.Add(in.betas[k][co], 1)
 						case "alpha":
-							in.alpha[1] = ref.Add(in.alpha[1], 1)
+							in.alpha[co] = ref.Add(in.alpha[co], 1)
 						case "reduced_opening":
 							k := r.Intn(len(in.reduced))
-							in.reduced[k][0] = ref.Add(in.reduced[k][0], 1)
+							in.reduced[k][co] = ref.Add(in.reduced[k][co], 1)
 						case "final_coeff":
 							k := r.Intn(len(in.finalPoly))
-							in.finalPoly[k][0] = ref.Add(in.finalPoly[k][0], 1)
+							in.finalPoly[k][co] = ref.Add(in.finalPoly[k][co], 1)
 						case "index_low_bit":
 							in.raw ^= 1 << uint(r.Intn(4))
 						case "index_mid_bit":
